@@ -547,7 +547,7 @@ def run_case(seed, i, tier):
         prng = core.rng_for(seed, PROP, i, "plan", k)
         plan = core.random_plan(prng, len(scn.files), budget=3_000_000)
         plan.hashseed = rng.getrandbits(32)
-        res = core.execute(scn, plan, wall_cap=20.0)
+        res = core.execute(scn, plan, wall_cap=20.0, retry_cap=30.0)     # (runs of this check take well under a second)
         tr = res.trace
         cr.runs += 1
         cr.steps += tr.steps
